@@ -9,6 +9,10 @@ import (
 var TFrame = make(map[FrameKey]*T)
 var ArgumentSnapShot = make(map[FrameKey]T)
 
+// parameters that had no type yet when the snapshot was taken: whatever the
+// body assigns to them is taken away again after the body
+var argumentSnapShotAbsent = make(map[FrameKey]bool)
+
 func DeepCopyTFrame() map[FrameKey]*T {
 	copied := make(map[FrameKey]*T)
 	maps.Copy(copied, TFrame)
@@ -19,6 +23,7 @@ func DeepCopyTFrame() map[FrameKey]*T {
 // ArgumentSnapShot management functions
 func clearArgumentSnapShot() {
 	ArgumentSnapShot = make(map[FrameKey]T)
+	argumentSnapShotAbsent = make(map[FrameKey]bool)
 }
 
 func SaveArgumentSnapShot(ctx context.Context, method, variable string, t T) {
@@ -56,11 +61,31 @@ func SnapShotArgumentTypes(
 			}
 
 			SaveArgumentSnapShot(ctx, method, arg, *currentT)
+
+			continue
+		}
+
+		if len(arg) > 0 && arg[0] != '*' && arg[0] != '&' {
+			argumentSnapShotAbsent[valueTFrameKey(
+				ctx.GetFrame(),
+				ctx.GetClass(),
+				method,
+				arg,
+				ctx.IsDefineStatic,
+			)] = true
 		}
 	}
 }
 
 func RestoreArgumentTypes() {
+	// an assignment in the body is about the local variable, not about what the
+	// parameter accepts
+	for key := range argumentSnapShotAbsent {
+		if t, ok := TFrame[key]; ok && !t.IsInfferedFromCall() {
+			delete(TFrame, key)
+		}
+	}
+
 	for key, currentT := range ArgumentSnapShot {
 		SetValueT(
 			key.frame,
